@@ -346,7 +346,32 @@ void backend () {
        * Each user gets exactly one turn per cycle (via HAS_CMD_TURN flag).
        * Loop bounded by connected_users for tighter safety limit.
        */
-      for (i = 0; process_user_command () && i < connected_users; i++);
+      for (i = 0; i < connected_users; i++)
+        {
+          /* A command that ends in an error must not end the cycle with it: the users
+           * behind it, the heart beats and the call_outs are served all the same.  (Left
+           * to the context of this function, the error restarted the loop at its top; a
+           * user who kept sending failing commands kept everything else from running.) */
+          error_context_t cmd_econ;
+          int served;
+
+          if (!save_context (&cmd_econ))
+            break;
+          if (setjmp (cmd_econ.context))
+            {
+              /* the error has been reported */
+              restore_context (&cmd_econ);
+              current_interactive = 0;
+              command_giver = 0;
+              eval_cost = CONFIG_INT (__MAX_EVAL_COST__);
+              served = 1;
+            }
+          else
+            served = process_user_command ();
+          pop_context (&cmd_econ);
+          if (!served)
+            break;
+        }
 
       /*
        * Despite the name, this routine takes care of several things.
